@@ -1095,7 +1095,7 @@ func epExportImport(o *Out, e *epEngine, now *big.Int, height int64, timers []ep
 	}
 	write()
 	its, ist := e.readState(e.ctx)
-	o.Emit(line, epObs(false, its, ist, nil, nil), true)
+	o.Emit(line, epObs(false, its, ist, nil, nil, nil), true)
 	o.Count("exportimport")
 	if !epStoresEq(ist, preStores) {
 		o.Fail("export-import:epochs:subscriber-stores-touched", line)
